@@ -124,6 +124,14 @@ PROPS = {
         "open_statements": [],
         "assumptions": COMMON_ASSUME + ["sequential consistency of the modelled steps; Once gives release/acquire ordering"],
     },
+    "C11": {
+        "claim": "Theorems for every nside>=1 (power of two or not): polar ring i+1 holds 4(i+1) cells and caps + equatorial rings add up to exactly 12*nside^2; no index exceeds 2^63 for nside<=2^29; every accessor rejects a cell number >= 12*nside^2 and hash rejects a latitude outside [-pi/2,pi/2] (NaN included), for every numeric instance; over the reals dldh_to_dxdy maps the 1x1 box into [0,1)^2. ring::hash / hash_with_dxdy (1x1-box logic, u64 arithmetic with overflow-panic in dev and wrap-around in release), center_of_projected_cell (with the repaired ring index), center, sph_coo are modelled generically and compared bit for bit at Float for every nside 1..64 (quick)/1..300 (thorough) with all cells for small nside, plus primes/odd/huge values up to 2^29 on ring-boundary classes. Oracles: range, point-in-diamond against an independent projection, hash(center)=h with offsets (1/2,1/2), ring sizes 4i / 4nside, ordering, sph_coo inverts hash_with_dxdy, guards. Finding F3 (polar-cap seams) is a known finding with an input classifier.",
+        "note": "PARTIAL proof: index-arithmetic/guard theorems proved for all nside; containment/centre theorems are open (and false on the seams on the unchanged tree: F3, reported as KNOWN-FINDING; any failure away from the seams is a VIOLATION).",
+        "level": "proof",
+        "trusted_base": ["Model/Ring.lean: hand-written generic mirror of ring::hash_with_dldh, deal_with_1x1_box, dldh_to_dxdy, center_of_projected_cell, sph_coo"],
+        "open_statements": ["ring_hash_plane_range", "ring_hash_center", "ring_hash_contains", "ring_order"],
+        "assumptions": COMMON_ASSUME,
+    },
     "C15": {
         "claim": 'Theorems: each pack pass never lengthens the list, pack ends on a fixed point of the pass (a further pass merges nothing), to_lower_depth rejects new_depth>=depth_max. The fixed-depth builder is modelled as a state machine with explicit drain points and compared with the code for all push-sequence families x 9 capacities x 9 depths; pack/to_lower_depth on exhaustive universes and random trees; oracles check pushed-set equality, map preservation, no four full siblings, the lower-depth rule.',
         "note": 'PARTIAL proof: structural pack theorems proved; pack_sem/fixed_builder_sem/to_lower_depth_sem open. Trusted: Lean kernel, hand-written model, Vec capacity assumption.',
